@@ -187,3 +187,18 @@ H("C04", "html/tree", "VxH_C04_defaulting", mode="real", reach=["computed"], bou
 H("C04", "html/tree", "VxH_C04_root", reach=["computed"], bounds="every known property x {inherit, initial} on the root element")
 H("C04", "html/tree", "VxH_C04_shared_rule", mode="real", reach=["computed"], bounds="two siblings with symbolic font sizes sharing one rule with em lengths (transform: translate, width, margin-left)")
 H("C04", "html/tree", "VxH_C04_relative_on_root", reach=["computed"], bounds="font-weight bolder/lighter and font-size larger/smaller on the root element")
+
+# ---- C10 block layout ----
+ASSUMPTIONS["C10"] = [
+    "real mode (exact real arithmetic); one block-level box with fully symbolic containing-block width, paddings/borders >= 0, width/margins auto or symbolic, min/max-width; ltr; normal flow only",
+    "floats, clearance, rtl, replaced boxes and tables are outside the claim",
+]
+CLAIMS["C10"] = {
+    "text": "For every combination of auto / non-auto width and margins and arbitrary real magnitudes the solver shows the used width and margins produced by blockLevelWidth (with min/max re-resolution) follow CSS 2.1 10.3.3-10.4, that percentages resolve against the containing block width, and that adjoining margins collapse to max-positive + min-negative.",
+    "design_ref": "DESIGN.md section 4 C10",
+    "note": "Trusted: symgo, z3 nlsat. Real-mode abstraction of float32.",
+}
+H("C10", "html/layout", "VxH_C10_width", mode="real", reach=["resolved"], bounds="one block box: containing block width >= 0, paddings/borders >= 0, width auto or >= 0, margins auto or any real, min-width >= 0, max-width none or >= 0 (all symbolic reals)")
+H("C10", "html/layout", "VxH_C10_collapse", mode="real", reach=["collapsed"], bounds="1..4 (thorough 5) fully symbolic adjoining margins")
+H("C10", "html/layout", "VxH_C10_percent", mode="real", reach=["resolved"], bounds="one of margin-left/top, padding-right/bottom, width, min-width as px / % / auto with symbolic magnitude; symbolic containing block; 3 box-sizing values with symbolic left padding and border")
+H("C10", "html/layout", "VxH_C10_stack", mode="real", reach=["laid-out"], bounds="<section><article/></section><aside/> laid out by the real pipeline: parent padding-top/bottom 0 or in [1,50], child height in [1,100], margins in [-20,20] (symbolic)", quick={"maxsteps": 50000000, "time": "400s"})
